@@ -218,7 +218,9 @@ fn gen_structural(out: &mut Out, r: &mut Rng) {
     let mut reqs = Vec::new();
     if shared_collection {
         let kinds: Vec<ItemKind> = {
-            let mut b = Builder::new(&mut shared, r.chance(1, 2));
+            // no structural sharing across requirements: two requirements never alias one
+            // anonymous interface id (see notes/C09.md, observation 6)
+            let mut b = Builder::new(&mut shared, false);
             reqs_d.iter().map(|(_, d)| b.kind(d)).collect()
         };
         let rc = std::rc::Rc::new(shared);
